@@ -188,7 +188,7 @@ def twins(tier):
         Twin("venn_chunk_edge", "ibldsp.spiketrains", "*np.searchsorted(samples, [sample_offset, sample_offset + chunk_size])", "*np.searchsorted(samples, [sample_offset + 1, sample_offset + chunk_size])", vn),
         Twin("stack_wrong_vector", "ibldsp.voltage", "        i2stack = sind == uinds", "        i2stack = sind == word", ["stack_sum", "stack_mean"]),
         Twin("savgol_border_origin", "ibldsp.smooth", "            x_i *= x[i] - x[half_window]\n", "            x_i *= x[i] - x[half_window - 1]\n", ["savgol_irregular_w5_o2", "savgol_clustered_w5_o2"]),
-        Twin("savgol_window_offset", "ibldsp.smooth", "                t[j] = x[i + j - half_window] - x[i]", "                t[j] = x[i + j - half_window] - x[i - 1]", ["savgol_irregular_w5_o2"]),
+        Twin("savgol_window_offset", "ibldsp.smooth", "            t[j] = x[i + j - half_window] - x[i]", "            t[j] = x[i + j - half_window] - x[i - 1]", ["savgol_irregular_w5_o2"]),
         Twin("rolling_sign", "ibldsp.smooth", "return y[round((window_len / 2 - 1)): round(-(window_len / 2))]", "return y[round((window_len / 2 - 1)): round(-(window_len / 2)) - 1]", ["rolling_flat_3", "rolling_hanning_5"]),
         Twin("rolling_not_normalised", "ibldsp.smooth", 'y = np.convolve(w / w.sum(), s, mode="valid")', 'y = np.convolve(w / w.max(), s, mode="valid")', ["rolling_hanning_5", "rolling_blackman_5"]),
     ]
